@@ -344,9 +344,11 @@ C09_NoRedoAction(s, e) == (IsP(e) /\ s.crashed /\ D(s, e.obj).k = "act") =>
 C09_NoRedoFinished(s, e) == (IsP(e) /\ s.crashed) =>
     /\ ~EnclosingTerminal(s, D(s, e.obj))
     /\ D(s, e.obj).k = "act" => s.cdur[e.obj].st # FA
+\* (a durable permanent failure is a durable result as well: C05's "never again after a permanent error" does not
+\* end with the process)
 C09_OnlyInFlight(s, e) == (IsP(e) /\ s.crashed /\ D(s, e.obj).k = "act") =>
     \/ s.cdur[e.obj].st = NS
-    \/ s.cdur[e.obj].st = RU /\ s.cdur[e.obj].last # "ok"
+    \/ s.cdur[e.obj].st = RU /\ s.cdur[e.obj].last \notin {"ok", "perm", "wrongtype", "wrongtype-kept"}
 
 (* ---------------- C10: recovery converges ---------------- *)
 C10_Terminates(s, e) == ((e.ev = "Hang" \/ (e.ev = "ProcDied" /\ s.waited = <<>>)) /\ s.crashed) => FALSE
